@@ -280,6 +280,7 @@ func propC05(c *Ctx, r *Report) {
 	ruleRevalidation(c, r, "C05-R5/revalidation")
 
 	ruleValidDataTable(c, r, "C05-R6/valid-data")
+	ruleActivationsNotRewritten(c, r, "C05-R9/activations-not-rewritten")
 
 	// one signature, one execution: shared with C06 (replay guard dominance, same table on the block's tx)
 	ruleReplayGuard(c, r, "C05-R7/one-signature-one-execution")
